@@ -118,7 +118,7 @@ def run(c, a):
         "what a field carries is decided by the descriptor rule of DESIGN 3.11 (string fields named namespace / *_namespace, "
         "NamespaceInfo.name; DataBlob fields named events/new_run_events/event_batch(es)/events_batches/history_batches/"
         "raw_history; search_attributes of type SearchAttributes or map<string,Payload>)",
-        "recursion through recursive types is bounded (each type at most twice per path, depth <= 9 / 11)",
+        "recursion through recursive types is bounded (quick: each type at most twice per path, depth <= 9; thorough: four times, depth <= 16)",
     ]
     schema = export_schema(c)
     m = re.search(r"NTypes == (\d+)\nNFields == (\d+)", schema)
